@@ -1,6 +1,6 @@
 (* C11 - PEP 440 comparison is a total order on the key of the property text.
    Model: Model/Pep440.v (ordering.rs).  Spec: Spec/Pep440Spec.v (pep_key, pep_key_cmp). *)
-From ZV Require Import Str Pep440 OrderFacts Pep440Spec Pep440Order SemVer SemVerProofs PepParseNf.
+From ZV Require Import Str Pep440 OrderFacts Pep440Spec Pep440Order SemVer SemVerProofs PepParseNf PepAccept.
 
 (* the comparison is the lexicographic order on (epoch, release without trailing zeros, pre phase and number
    with none highest, post with none lowest, dev with none highest, local with none lowest) *)
@@ -75,6 +75,11 @@ Proof. exact same_normal_form_same_value. Qed.
 Theorem c11_same_normal_form_equal : forall s1 s2 v1 v2, pep_parse s1 = Some v1 -> pep_parse s2 = Some v2 -> pep_print v1 = pep_print v2 -> pep_cmp v1 v2 = Eq.
 Proof. exact same_normal_form_equal. Qed.
 
+(* ... and the v / V prefix is irrelevant: an accepted string parses to the same value with or without it *)
+Theorem c11_v_prefix_irrelevant : forall c s v, ascii_lower c = 118%N ->
+  (pep_parse (c :: s) = Some v <-> (exists d t, s = d :: t /\ is_ascii_digit d = true) /\ pep_parse s = Some v).
+Proof. exact pep_v_prefix_irrelevant. Qed.
+
 Print Assumptions c11_is_key_order.
 Print Assumptions c11_key_order_good.
 Print Assumptions c11_eq_iff_key.
@@ -86,3 +91,4 @@ Print Assumptions c11_phase_chain.
 Print Assumptions c11_max_well_defined.
 Print Assumptions c11_same_normal_form_same_value.
 Print Assumptions c11_same_normal_form_equal.
+Print Assumptions c11_v_prefix_irrelevant.
